@@ -71,7 +71,11 @@ def _arm_cmps(fn, blocks):
         if not (st["names"] or calls):
             continue
         cls = "ord" if g.rel in CP.ORD_RELS else "eq"
-        out.add((cls, calls, tuple(st["names"]), tuple(st["consts"]), tuple(st.get("variants", ()))))
+        # a named constant (`MAX_DIST_SYMBOLS`) and the literal it stands for are the same decision
+        names = tuple(n_ for n_ in st["names"] if not (n_.isupper() or (n_[:1].isupper() and "_" in n_ and n_.upper() == n_)))
+        if not (names or calls):
+            continue
+        out.add((cls, calls, names, tuple(st["consts"]), tuple(st.get("variants", ()))))
     return out
 
 
